@@ -404,4 +404,16 @@ package props
 //@   ensures  ok ==> ncalls == 1 && called(0, object.FindPropOwner) && arg1(0) == args[0] && arg2(0) == symhash(traceStr(args[1]).Value)
 //@   ensures  ok ==> res == (resultok(0) ? result(0) : object.BuiltInNil)
 //@   assigns  nothing
+//
+// iteration (`_iter` of a map): the listed scalar keys first, in their order, then the other pairs in their order -
+// the same two lists that len, keys, values and items walk; each call advances exactly one of the two positions
+//@ traced: props.yieldNonScalar
+//@ props C09
+//@ func props.mapIter$1(env, kwargs, args) res
+//@   requires m != nil && 0 <= scalarYieldIdx && 0 <= nonScalarYieldIdx
+//@   let i0 := scalarYieldIdx
+//@   let j0 := nonScalarYieldIdx
+//@   ensures  i0 < len(*m.HashKeys) && has(*m.Pairs, (*m.HashKeys)[i0]) ==> isT(res, *object.PanArr) && len(as(res, *object.PanArr).Elems) == 2 && as(res, *object.PanArr).Elems[0] == (*m.Pairs)[(*m.HashKeys)[i0]].Key && as(res, *object.PanArr).Elems[1] == (*m.Pairs)[(*m.HashKeys)[i0]].Value
+//@   ensures  i0 < len(*m.HashKeys) && has(*m.Pairs, (*m.HashKeys)[i0]) ==> scalarYieldIdx == i0 + 1 && nonScalarYieldIdx == j0 && ncalls == 0
+//@   ensures  i0 >= len(*m.HashKeys) && j0 < MAXLEN ==> ncalls == 1 && called(0, props.yieldNonScalar) && arg1(0) == m && arg2(0) == j0 && res == result(0) && nonScalarYieldIdx == j0 + 1 && scalarYieldIdx == i0
 
